@@ -89,6 +89,14 @@ def load_snapshot(path):
     return _SNAP_CACHE[path]
 
 
+def load_snapshots(path):
+    """All snapshots a file parses to (some shipped files hold several)."""
+    key = ("all", path)
+    if key not in _SNAP_CACHE:
+        _SNAP_CACHE[key] = GeckoSnapshot.parse_log_file(path)
+    return _SNAP_CACHE[key]
+
+
 def default_snapshot():
     return load_snapshot(os.path.join(SNAPDIR, "default.snapshot"))
 
